@@ -63,6 +63,17 @@ Proof.
   intros x p q st pos L Hne. unfold finished. simpl. rewrite L. unfold set_pos. rewrite find_tr_upd_other; auto.
 Qed.
 
+Lemma NoDup_app_intro : forall {A} (l1 l2 : list A), NoDup l1 -> NoDup l2 -> (forall k, In k l1 -> In k l2 -> False) -> NoDup (l1 ++ l2).
+Proof.
+  intros A l1 l2 N1 N2 D. induction N1 as [|a l1 Hn N1 IH]; simpl; [exact N2|].
+  constructor.
+  - intro Hin. apply in_app_or in Hin. destruct Hin as [Hin|Hin]; [contradiction | apply (D a); [left; reflexivity | exact Hin]].
+  - apply IH. intros k H1 H2. apply (D k); [right; exact H1 | exact H2].
+Qed.
+
+Lemma Params_c01_block_size_eq : Params.c01_block_size = 16384.
+Proof. reflexivity. Qed.
+
 Section Hash.
 Variable H : list N -> list N.
 Variable expected : N -> list N.
@@ -311,6 +322,362 @@ Proof.
   - unfold disc. cbn [curs]. intros q i b Hin Hne. apply in_del_cur in Hin. apply Hin.
   - unfold disc. cbn [curs]. intros i b x t Hin. apply in_del_cur in Hin. destruct Hin as [_ Hn]. congruence.
   - unfold disc. cbn [hashing pmark]. auto.
+Qed.
+
+
+(* ---------- hash_failed: keys, lengths and transfers are untouched; leaders only change in piece i ---------- *)
+Definition HR (i : N) (y y' : block) : Prop :=
+  key y' = key y /\ b_len y' = b_len y /\ b_trans y' = b_trans y /\ (b_idx y <> i -> b_leader y' = b_leader y).
+
+Lemma HR_refl : forall i y, HR i y y. Proof. intros. repeat split; auto. Qed.
+
+Lemma retry_blocks_HR : forall i bl pc, Forall2 (HR i) bl (fst (retry_blocks i bl pc)).
+Proof.
+  intros i bl. induction bl as [|x bl IH]; intro pc; simpl; [constructor|].
+  destruct (b_idx x =? i).
+  - destruct (last_max (b_failed x) 0 None) as [[k c]|].
+    + destruct (match b_cur x with Some c0 => c0 =? k | None => false end).
+      * specialize (IH pc). destruct (retry_blocks i bl pc). simpl in *. constructor; [apply HR_refl | exact IH].
+      * specialize (IH (splice pc (N.to_nat (b_off x)) (fst (nth (N.to_nat k) (b_failed x) ([], 0))))).
+        destruct (retry_blocks i bl _). simpl in *. constructor; [repeat split; auto | exact IH].
+    + specialize (IH pc). destruct (retry_blocks i bl pc). simpl in *. constructor; [apply HR_refl | exact IH].
+  - specialize (IH pc). destruct (retry_blocks i bl pc). simpl in *. constructor; [apply HR_refl | exact IH].
+Qed.
+
+Lemma Forall2_map_r : forall {A} (R : A -> A -> Prop) (g : A -> A) l, (forall x, R x (g x)) -> Forall2 R l (map g l).
+Proof. intros A R g l Hg. induction l; simpl; constructor; auto. Qed.
+
+Lemma Forall2_trans : forall {A} (R : A -> A -> Prop) l1 l2 l3, (forall x y z, R x y -> R y z -> R x z) ->
+  Forall2 R l1 l2 -> Forall2 R l2 l3 -> Forall2 R l1 l3.
+Proof.
+  intros A R l1 l2 l3 T F1. revert l3. induction F1; intros l3 F2; inversion F2; subst; constructor; eauto.
+Qed.
+
+Lemma HR_trans : forall i x y z, HR i x y -> HR i y z -> HR i x z.
+Proof.
+  intros i x y z (A1 & A2 & A3 & A4) (B1 & B2 & B3 & B4). repeat split; try congruence.
+  intro Hn. rewrite B4; [apply A4; exact Hn|]. unfold key in A1. inversion A1. congruence.
+Qed.
+
+Lemma hash_failed_HR : forall s i, Forall2 (HR i) (blocks s) (blocks (hash_failed s i)).
+Proof.
+  intros s i. unfold hash_failed. destruct (attempt_of s i =? 0).
+  - pose proof (retry_blocks_HR i (upd_piece_blocks (blocks s) i (update_failed_block (piece s i))) (piece s i)) as R.
+    destruct (retry_blocks i _ (piece s i)) as [bl2 pc]. simpl in *.
+    eapply Forall2_trans; [apply HR_trans | | exact R].
+    unfold upd_piece_blocks. apply Forall2_map_r. intro x. destruct (b_idx x =? i); [|apply HR_refl].
+    unfold update_failed_block. destruct (find_data _ _ _); repeat split; auto.
+  - simpl. unfold upd_piece_blocks. apply Forall2_map_r. intro x. destruct (b_idx x =? i) eqn:E; [|apply HR_refl].
+    repeat split; auto. intro Hn. apply N.eqb_eq in E. contradiction.
+Qed.
+
+Lemma Forall2_keys : forall i l l', Forall2 (HR i) l l' -> map key l' = map key l.
+Proof. intros i l l' F. induction F as [|x y l l' R F IH]; simpl; [reflexivity|]. destruct R as (E & _). rewrite E, IH. reflexivity. Qed.
+Lemma Forall2_in_r : forall {A} (R : A -> A -> Prop) l l' y', Forall2 R l l' -> In y' l' -> exists y, In y l /\ R y y'.
+Proof.
+  intros A R l l' y' F. induction F as [|x y l l' Rxy F IH]; intro Hin; [destruct Hin|].
+  destruct Hin as [<-|Hin]; [exists x; split; [left; reflexivity | exact Rxy]|].
+  destruct (IH Hin) as (z & Hz & Rz). exists z. split; [right; exact Hz | exact Rz].
+Qed.
+
+Lemma hash_failed_J : forall s i, J s -> ~ In i (hashing s) -> pmark s = None -> J (hash_failed s i).
+Proof.
+  intros s i (KU & LP & CLs & HI) Hni PM.
+  pose proof (hash_failed_HR s i) as F.
+  destruct (hash_failed_spec s i) as (_ & _ & F3 & F4 & _).
+  assert (Ec : curs (hash_failed s i) = curs s).
+  { unfold hash_failed. destruct (attempt_of s i =? 0); [destruct (retry_blocks _ _ _)|]; reflexivity. }
+  unfold ProofsInv.J. repeat split.
+  - rewrite (Forall2_keys i _ _ F). exact KU.
+  - intros y' Hy'. destruct (Forall2_in_r _ _ _ _ F Hy') as (y & Hy & (_ & E & _)). rewrite E. apply LP. exact Hy.
+  - intros q i' b' x t Hc Hx Bx Ht Et. rewrite Ec in Hc. destruct (Forall2_in_r _ _ _ _ F Hx) as (y & Hy & (Ek & El & Etr & _)).
+    rewrite El. eapply CLs; [exact Hc | exact Hy | rewrite <- (key_is_block i' b' x y Ek); exact Bx | rewrite <- Etr; exact Ht | exact Et].
+  - intros j Hj. rewrite F3, F4, PM in Hj. destruct Hj as [Hj|Hj]; [|discriminate].
+    apply all_finished_intro. intros y' Hy' Ej.
+    destruct (Forall2_in_r _ _ _ _ F Hy') as (y & Hy & (Ek & El & Etr & Eld)).
+    assert (Ei : b_idx y = j) by (rewrite <- (key_idx _ _ Ek); exact Ej).
+    assert (Hne : b_idx y <> i) by (intro; subst; congruence).
+    pose proof (all_finished_block s j y (HI j (or_introl Hj)) Hy Ei) as Fy.
+    unfold finished in *. rewrite Etr, (Eld Hne), El. exact Fy.
+Qed.
+
+(* ---------- BlockList::BlockList ---------- *)
+Lemma mk_blocks_from_facts : forall fuel i no off size y, 0 < size -> In y (mk_blocks_from i no off size fuel) ->
+  b_idx y = i /\ no <= b_no y /\ 0 < b_len y /\ b_trans y = [] /\ b_leader y = None.
+Proof.
+  induction fuel as [|k IH]; intros i no off size y Hs Hin; simpl in Hin; [contradiction|].
+  assert (0 < bs) by (unfold bs; rewrite Params_c01_block_size_eq; lia).
+  destruct (size <=? bs) eqn:E.
+  - destruct Hin as [<-|[]]. simpl. repeat split; auto; lia.
+  - apply N.leb_gt in E. destruct Hin as [<-|Hin]; [simpl; repeat split; auto; lia|].
+    apply IH in Hin; [|lia]. destruct Hin as (A & B & C). repeat split; auto; try lia; apply C.
+Qed.
+
+Lemma mk_blocks_from_keys : forall fuel i no off size, 0 < size -> NoDup (map key (mk_blocks_from i no off size fuel)).
+Proof.
+  induction fuel as [|k IH]; intros i no off size Hs; simpl; [constructor|].
+  destruct (size <=? bs) eqn:E; simpl.
+  - constructor; [intros []|constructor].
+  - apply N.leb_gt in E. constructor; [|apply IH; lia].
+    intro Hin. apply in_map_iff in Hin. destruct Hin as (y & Ey & Hy).
+    apply mk_blocks_from_facts in Hy; [|lia]. destruct Hy as (_ & B & _). unfold key in Ey. simpl in Ey. inversion Ey. lia.
+Qed.
+
+
+Lemma find_tr_app_some : forall q l a t, find_tr q l = Some t -> find_tr q (l ++ a) = Some t.
+Proof.
+  intros q l a t. unfold find_tr. induction l as [|u l IH]; simpl; [discriminate|].
+  destruct (t_peer u =? q); [auto | exact IH].
+Qed.
+
+Lemma has_tr_false : forall p l t, has_tr p l = false -> In t l -> t_peer t <> p.
+Proof.
+  intros p l t Hh Hin E. unfold has_tr in Hh. assert (existsb (fun t0 => t_peer t0 =? p) l = true); [|congruence].
+  apply existsb_exists. exists t. split; [exact Hin | apply N.eqb_eq; exact E].
+Qed.
+
+(* events that only touch queued sets / nothing of a block *)
+Lemma same_blocks_J : forall s s', J s -> blocks s' = blocks s -> curs s' = curs s ->
+  (forall j, In j (hashing s') \/ pmark s' = Some j -> all_finished s j = true) -> J s'.
+Proof.
+  intros s s' (KU & LP & CLs & HI) Eb Ec Hh. unfold ProofsInv.J, CL. rewrite Eb, Ec. repeat split; auto.
+  intros j Hj. specialize (Hh j Hj). unfold all_finished in *. rewrite Eb. exact Hh.
+Qed.
+
+Theorem J_step : forall s e s', Inv H expected npieces s -> J s -> accept s e = Some s' -> J s'.
+Proof.
+  intros s e s' (I1 & I2 & I3 & I4 & I5 & I6 & I7) Js A.
+  pose proof Js as (KU & LP & CLs & HI).
+  unfold Model.accept in A. destruct (pmark s) as [m|] eqn:PM.
+  - (* EMark *)
+    destruct e; try discriminate. destruct (m =? i) eqn:E; [|discriminate]. apply N.eqb_eq in E. subst m.
+    inversion A; subst s'; clear A. unfold ProofsInv.J, CL. cbn [blocks curs hashing pmark]. repeat split.
+    + apply NoDup_map_filter. exact KU.
+    + intros x Hx. apply filter_In in Hx. apply LP. apply Hx.
+    + intros q i' b' x t Hc Hx. apply filter_In in Hx. destruct Hx as [Hx _]. eapply CLs; eassumption.
+    + intros j [Hj|Hj]; [|discriminate]. apply all_finished_intro. cbn [blocks]. intros x Hx Ej. apply filter_In in Hx.
+      eapply all_finished_block; [apply HI; left; exact Hj | apply Hx | exact Ej].
+  - destruct e; try discriminate.
+    + (* EConn *) destruct (_ || _); [discriminate|]. inversion A; subst s'. apply (same_blocks_J s); auto;
+      try (cbn [hashing pmark]; intros j Hj; apply HI; try rewrite PM; exact Hj).
+    + (* EDisc *) destruct (memN p (conns s)); inversion A; subst s'; [apply disc_J; exact Js | exact Js].
+    + (* ENew *)
+      destruct ((i <? npieces) && negb (listed s i) && negb (memN i (completed s))) eqn:G; [|discriminate].
+      apply andb_true_iff in G. destruct G as [G _]. apply andb_true_iff in G. destruct G as [G1 G2].
+      apply N.ltb_lt in G1. apply negb_true_iff in G2. inversion A; subst s'; clear A.
+      pose proof (psize_pos i G1) as Hps.
+      assert (NewF : forall y, In y (mk_blocks psize i) -> b_idx y = i /\ 0 < b_len y /\ b_trans y = []).
+      { intros y Hy. unfold mk_blocks in Hy. apply mk_blocks_from_facts in Hy; [|exact Hps]. tauto. }
+      unfold ProofsInv.J, CL. cbn [blocks curs hashing pmark with_blocks with_attempts]. repeat split.
+      * rewrite map_app. apply NoDup_app_intro.
+        -- exact KU.
+        -- unfold mk_blocks. apply mk_blocks_from_keys. exact Hps.
+        -- intros k Hk1 Hk2. apply in_map_iff in Hk1. destruct Hk1 as (x & Ex & Hx). apply in_map_iff in Hk2. destruct Hk2 as (y & Ey & Hy).
+           destruct (NewF y Hy) as (Ei & _). pose proof (I4 x Hx) as Lx.
+           assert (b_idx x = i) by (unfold key in *; rewrite <- Ey in Ex; inversion Ex; congruence). subst i. congruence.
+      * intros x Hx. apply in_app_or in Hx. destruct Hx as [Hx|Hx]; [apply LP; exact Hx | apply NewF; exact Hx].
+      * intros q i' b' x t Hc Hx Bx Ht Et. apply in_app_or in Hx. destruct Hx as [Hx|Hx]; [eapply CLs; eassumption|].
+        destruct (NewF x Hx) as (_ & _ & Etr). rewrite Etr in Ht. destruct Ht.
+      * intros j Hj. try rewrite PM in Hj. apply all_finished_intro. cbn [blocks with_blocks with_attempts]. intros x Hx Ej.
+        apply in_app_or in Hx. destruct Hx as [Hx|Hx]; [eapply all_finished_block; [apply HI; try rewrite PM; exact Hj | exact Hx | exact Ej]|].
+        exfalso. destruct (NewF x Hx) as (Ei & _). destruct Hj as [Hj|Hj]; [|discriminate].
+        pose proof (I5 j Hj). congruence.
+    + (* EIns *) destruct (find_block s i b) as [x|] eqn:Fx; [|discriminate]. destruct (_ && _); [|discriminate]. inversion A; subst s'.
+      eapply (upd_J p s _ i b x (fun y => set_queued y (b_queued y ++ [p]))); try exact Js; try exact Fx; try reflexivity; auto.
+      * repeat split; auto. apply ents_refl.
+      * cbn [curs with_blocks]. intros i' b' Hin. split; [auto|]. intros Bx t Ht Et.
+        apply find_some in Fx. eapply CLs; try eassumption. apply Fx.
+    + (* ERel *) destruct (find_block s i b) as [x|] eqn:Fx; [|discriminate]. destruct (memN p (b_queued x)); [|discriminate]. inversion A; subst s'.
+      eapply (upd_J p s _ i b x (fun y => set_queued y (removeN p (b_queued y)))); try exact Js; try exact Fx; try reflexivity; auto.
+      * repeat split; auto. apply ents_refl.
+      * cbn [curs with_blocks]. intros i' b' Hin. split; [auto|]. intros Bx t Ht Et.
+        apply find_some in Fx. eapply CLs; try eassumption. apply Fx.
+    + (* EPiece *) destruct (negb (memN p (conns s))); [discriminate|].
+      destruct (get_cur s p) eqn:C; [discriminate|]. destruct start.
+      * destruct (find_block s i (off / bs)) as [x|] eqn:Fx; [|discriminate].
+        destruct ((b_off x =? off) && (b_len x =? len) && memN p (b_queued x) && negb (has_tr p (b_trans x))) eqn:G; [|discriminate].
+        apply andb_true_iff in G. destruct G as [_ G]. apply negb_true_iff in G.
+        inversion A; subst s'; clear A.
+        set (st := match b_leader x with None => TLeader | Some _ => TNotLeader end).
+        set (ld := match b_leader x with None => Some p | Some q => Some q end).
+        eapply (upd_J p s _ i (off / bs) x (fun y => set_trans (set_queued y (removeN p (b_queued y)))
+                 (b_trans y ++ [ {| t_peer := p; t_state := st; t_pos := 0 |} ]) ld)); try exact Js; try exact Fx; try reflexivity.
+        -- repeat split; auto.
+           ++ cbn [b_trans set_trans]. apply ents_app_new. reflexivity.
+           ++ unfold finished, ld. cbn [b_leader b_trans b_len set_trans set_queued]. destruct (b_leader x) as [q|]; [|discriminate].
+              destruct (find_tr q (b_trans x)) as [t|] eqn:Ft; [|discriminate]. rewrite (find_tr_app_some _ _ _ _ Ft). auto.
+        -- cbn [curs with_blocks with_curs]. intros q i' b' Hin Hne. apply in_set_cur in Hin. destruct Hin as [[Hin _]|[E _]]; [exact Hin | congruence].
+        -- cbn [curs with_blocks with_curs]. intros i' b' Hin. apply in_set_cur in Hin. destruct Hin as [[Hin _]|[_ E]].
+           ++ exfalso. eapply get_cur_none; eassumption.
+           ++ split; [intro; exfalso; inversion E; subst i' b'; apply find_some in Fx; destruct Fx; congruence|].
+              intros _ t Ht Et. cbn [b_trans set_trans] in Ht. apply in_app_or in Ht. destruct Ht as [Ht|[<-|[]]].
+              ** exfalso. eapply has_tr_false; eassumption.
+              ** simpl. apply LP. apply find_some in Fx. apply Fx.
+        -- auto.
+      * destruct (len =? 0); inversion A; subst s'; [exact Js|].
+        apply (J_from_BS p s); auto.
+        -- intros y' Hy'. exists y'. split; [exact Hy' | apply BS_refl].
+        -- cbn [curs with_curs]. intros q i' b' Hin Hne. apply in_set_cur in Hin. destruct Hin as [[Hin _]|[E _]]; [exact Hin | congruence].
+        -- cbn [curs with_curs]. intros i' b' x t Hin. apply in_set_cur in Hin. destruct Hin as [[_ Hn]|[_ E]]; [congruence | discriminate].
+    + (* EData *) destruct (get_cur s p) as [[i b|pos len]|] eqn:C; [| |discriminate].
+      * eapply dv_J; eassumption.
+      * destruct (_ || _); [discriminate|].
+        destruct (pos + lenN d =? len); inversion A; subst s'; apply (J_from_BS p s); auto;
+          try (intros y' Hy'; exists y'; split; [exact Hy' | apply BS_refl]); cbn [curs with_curs].
+        -- intros q i' b' Hin Hne. apply in_del_cur in Hin. apply Hin.
+        -- intros i' b' x t Hin. apply in_del_cur in Hin. destruct Hin as [_ Hn]. congruence.
+        -- intros q i' b' Hin Hne. apply in_set_cur in Hin. destruct Hin as [[Hin _]|[E _]]; [exact Hin | congruence].
+        -- intros i' b' x t Hin. apply in_set_cur in Hin. destruct Hin as [[_ Hn]|[_ E]]; [congruence | discriminate].
+    + destruct (memN p (conns s)); inversion A; subst s'; exact Js.
+    + destruct (memN p (conns s)); inversion A; subst s'; exact Js.
+    + (* EHashQueued *) destruct (listed s i && all_finished s i && negb (memN i (hashing s))) eqn:G; [|discriminate].
+      apply andb_true_iff in G. destruct G as [G _]. apply andb_true_iff in G. destruct G as [_ G].
+      inversion A; subst s'. apply (same_blocks_J s); auto. cbn [hashing pmark with_hashing]; try rewrite PM.
+      intros j [[<-|Hj]|Hj]; [exact G | apply HI; left; exact Hj | discriminate].
+    + (* EHashDone *) destruct (memN i (hashing s) && _) eqn:G; [|discriminate].
+      apply andb_true_iff in G. destruct G as [G1 _]. apply memN_In in G1.
+      destruct ok; inversion A; subst s'; clear A.
+      * apply (same_blocks_J s); auto. cbn [hashing pmark with_hashing with_pmark].
+        intros j [Hj|Hj]; [apply removeN_In in Hj; apply HI; left; apply Hj | inversion Hj; subst; apply HI; left; exact G1].
+      * apply hash_failed_J.
+        -- apply (same_blocks_J s); auto. cbn [hashing pmark with_hashing]; try rewrite PM.
+           intros j [Hj|Hj]; [apply removeN_In in Hj; apply HI; left; apply Hj | discriminate].
+        -- cbn [hashing with_hashing]. intro Hc. apply removeN_In in Hc. destruct Hc as [_ Hc]. apply Hc. reflexivity.
+        -- cbn [pmark with_hashing]; try exact PM; reflexivity.
+    + (* EHashCancel *) destruct (memN i (hashing s)); [|discriminate]. inversion A; subst s'.
+      apply (same_blocks_J s); auto. cbn [hashing pmark with_hashing]; try rewrite PM.
+      intros j [Hj|Hj]; [apply removeN_In in Hj; apply HI; left; apply Hj | discriminate].
+    + (* EHave *) destruct (_ && _); [|discriminate]. inversion A; subst s'. apply (same_blocks_J s); auto;
+      try (cbn [hashing pmark]; intros j Hj; apply HI; try rewrite PM; exact Hj).
+    + (* EDone *) destruct (_ && _); [|discriminate]. inversion A; subst s'. apply (same_blocks_J s); auto;
+      try (cbn [hashing pmark]; intros j Hj; apply HI; try rewrite PM; exact Hj).
+    + destruct (list_eqb _ _); inversion A; subst s'. exact Js.
+    + (* ECorrupt *) inversion A; subst s'. unfold corrupt.
+      match goal with |- context [disc ?S p] => set (s1 := S) end.
+      assert (J1 : J s1) by (apply (same_blocks_J s); auto; unfold s1; cbn [hashing pmark]; intros j Hj; apply HI; try rewrite PM in Hj; exact Hj).
+      destruct (_ && _); [apply disc_J; exact J1 | exact J1].
+Qed.
+
+
+Lemma J_init : forall st0 c0, J (init st0 c0).
+Proof. intros. unfold ProofsInv.J, CL, init; simpl. repeat split; try constructor; try contradiction; try (intros i [[]|E]; discriminate). Qed.
+
+Theorem JI_run : forall tr s s', Inv H expected npieces s -> J s -> run s tr = Some s' -> Inv H expected npieces s' /\ J s'.
+Proof.
+  induction tr as [|e tr IH]; intros s s' I Js R; simpl in R.
+  - inversion R; subst; auto.
+  - destruct (accept s e) as [s1|] eqn:A; [|discriminate]. eapply IH; [| |exact R].
+    + eapply inv_step; eassumption.
+    + eapply J_step; eassumption.
+Qed.
+
+(* the only events that change a piece of the store are Data events and the failed verdict of that very piece *)
+Lemma piece_change : forall s e s' i, accept s e = Some s' ->
+  (forall p d, e <> EData p d) -> e <> EHashDone i false -> piece s' i = piece s i.
+Proof.
+  intros s e s' i A ND NH. unfold Model.accept in A. destruct (pmark s) as [m|].
+  - destruct e; try discriminate. destruct (m =? i0); [|discriminate]. inversion A; subst s'. reflexivity.
+  - destruct e; try discriminate.
+    + destruct (_ || _); [discriminate|]. inversion A; subst s'. reflexivity.
+    + destruct (memN p (conns s)); inversion A; subst s'; reflexivity.
+    + destruct (_ && _); [|discriminate]. inversion A; subst s'. reflexivity.
+    + destruct (find_block s i0 b); [|discriminate]. destruct (_ && _); [|discriminate]. inversion A; subst s'. reflexivity.
+    + destruct (find_block s i0 b); [|discriminate]. destruct (memN p (b_queued b0)); [|discriminate]. inversion A; subst s'. reflexivity.
+    + destruct (negb (memN p (conns s))); [discriminate|]. destruct (get_cur s p); [discriminate|]. destruct start.
+      * destruct (find_block s i0 (off / bs)); [|discriminate]. destruct (_ && _); [|discriminate]. inversion A; subst s'. reflexivity.
+      * destruct (len =? 0); inversion A; subst s'; reflexivity.
+    + exfalso. eapply ND. reflexivity.
+    + destruct (memN p (conns s)); inversion A; subst s'; reflexivity.
+    + destruct (memN p (conns s)); inversion A; subst s'; reflexivity.
+    + destruct (_ && _); [|discriminate]. inversion A; subst s'. reflexivity.
+    + destruct (_ && _); [|discriminate]. destruct ok; inversion A; subst s'; [reflexivity|].
+      destruct (hash_failed_spec (with_hashing s (removeN i0 (hashing s))) i0) as (F1 & _).
+      apply F1. intro. subst. apply NH. reflexivity.
+    + destruct (memN i0 (hashing s)); [|discriminate]. inversion A; subst s'. reflexivity.
+    + destruct (_ && _); [|discriminate]. inversion A; subst s'. reflexivity.
+    + destruct (_ && _); [|discriminate]. inversion A; subst s'. reflexivity.
+    + destruct (list_eqb _ _); inversion A; subst s'. reflexivity.
+    + inversion A; subst s'. destruct (corrupt_spec s p) as (D1 & _). unfold piece. rewrite D1. reflexivity.
+Qed.
+
+(* a piece that is in the hash queue (or between its verdict and mark_completed) accepts no write: its bytes change
+   only through its own failed verdict (retry_most_popular); in particular the digest is computed from the store as
+   it still is when the verdict is delivered *)
+Theorem hashing_never_written : forall st0 c0 tr s e s' i,
+  init_ok H expected st0 c0 -> run (init st0 c0) tr = Some s -> accept s e = Some s' ->
+  In i (hashing s) \/ pmark s = Some i -> e <> EHashDone i false ->
+  piece s' i = piece s i /\ all_finished s i = true.
+Proof.
+  intros st0 c0 tr s e s' i Hi R A Hh NH.
+  destruct (JI_run tr _ _ (inv_init H expected npieces _ _ Hi) (J_init _ _) R) as (I & (_ & _ & _ & HI)).
+  pose proof (HI i Hh) as AF. split; [|exact AF].
+  destruct e; try (eapply piece_change; [exact A | intros; discriminate | exact NH]).
+  eapply hashing_never_written_partial; eassumption.
+Qed.
+
+(* internal_error checks, the part that needs the hashing invariant: "all blocks finished" in hash_succeeded / hash_failed,
+   "already finished" in mark_completed, "already delegated" in TransferList::insert *)
+Theorem no_fatal_hash : forall st0 c0 tr s e s',
+  init_ok H expected st0 c0 -> run (init st0 c0) tr = Some s -> accept s e = Some s' ->
+  (forall p d, e <> EData p d) -> fatal s e = false.
+Proof.
+  intros st0 c0 tr s e s' Hi R A ND.
+  destruct (JI_run tr _ _ (inv_init H expected npieces _ _ Hi) (J_init _ _) R) as ((I1 & I2 & I3 & I4 & I5 & _) & (_ & _ & _ & HI)).
+  destruct e; try reflexivity.
+  - (* ENew *) unfold Model.accept in A. destruct (pmark s); [discriminate|].
+    destruct ((i <? npieces) && negb (listed s i) && negb (memN i (completed s))) eqn:G; [|discriminate].
+    apply andb_true_iff in G. destruct G as [G _]. apply andb_true_iff in G. destruct G as [_ G]. apply negb_true_iff in G. exact G.
+  - exfalso. eapply ND. reflexivity.
+  - (* EHashDone *) destruct ok; [reflexivity|]. unfold Model.accept in A. destruct (pmark s) eqn:PM; [discriminate|].
+    destruct (memN i (hashing s) && _) eqn:G; [|discriminate]. apply andb_true_iff in G. destruct G as [G _]. apply memN_In in G.
+    simpl. rewrite (I5 i G), (HI i (or_introl G)). reflexivity.
+  - (* EMark *) unfold Model.accept in A. destruct (pmark s) as [m|] eqn:PM; [|discriminate].
+    destruct (m =? i) eqn:E; [|discriminate]. apply N.eqb_eq in E. subst m.
+    destruct (I2 i eq_refl) as (_ & L & _). simpl. rewrite (HI i (or_intror eq_refl)).
+    destruct (memN i (completed s)) eqn:M; [|reflexivity]. apply memN_In in M. rewrite (I3 i M) in L. discriminate.
+Qed.
+
+
+(* liveness, the last mile: once every block of a listed piece is finished and the bytes are the original ones, the
+   sequence HashQueued, verdict, mark_completed, have-queue is enabled from ANY reachable state with no verdict in
+   progress, and ends with the piece completed (so a fair scheduler of enabled events completes it) *)
+Theorem finished_piece_completes : forall st0 c0 tr s i,
+  init_ok H expected st0 c0 -> run (init st0 c0) tr = Some s ->
+  pmark s = None -> listed s i = true -> all_finished s i = true -> ~ In i (hashing s) ->
+  H (piece s i) = expected i ->
+  exists s', run s [EHashQueued i; EHashDone i true; EMark i; EHave i] = Some s' /\
+             In i (completed s') /\ In i (haves s') /\ piece s' i = piece s i /\ listed s' i = false.
+Proof.
+  intros st0 c0 tr s i Hi R PM L AF NH Hh.
+  destruct (JI_run tr _ _ (inv_init H expected npieces _ _ Hi) (J_init _ _) R) as ((I1 & I2 & I3 & I4 & I5 & I6 & I7) & _).
+  assert (NC : memN i (completed s) = false).
+  { destruct (memN i (completed s)) eqn:M; [|reflexivity]. apply memN_In in M. rewrite (I3 i M) in L. discriminate. }
+  assert (NHv : memN i (haves s) = false).
+  { destruct (memN i (haves s)) eqn:M; [|reflexivity]. apply memN_In in M. apply I6 in M. apply memN_In in M. congruence. }
+  assert (NHm : memN i (hashing s) = false).
+  { destruct (memN i (hashing s)) eqn:M; [|reflexivity]. apply memN_In in M. contradiction. }
+  assert (LE : list_eqb (H (piece s i)) (expected i) = true) by (apply list_eqb_eq; exact Hh).
+  set (s1 := with_hashing s (i :: hashing s)).
+  assert (A1 : accept s (EHashQueued i) = Some s1).
+  { unfold Model.accept. rewrite PM, L, AF, NHm. reflexivity. }
+  set (s2 := with_pmark (with_hashing s1 (removeN i (hashing s1))) (Some i)).
+  assert (A2 : accept s1 (EHashDone i true) = Some s2).
+  { unfold Model.accept. replace (pmark s1) with (@None N) by (symmetry; exact PM).
+    replace (memN i (hashing s1)) with true by (unfold s1, memN; cbn [hashing with_hashing existsb]; rewrite N.eqb_refl; reflexivity).
+    replace (piece s1 i) with (piece s i) by reflexivity. rewrite LE. reflexivity. }
+  destruct (accept s2 (EMark i)) as [s3|] eqn:A3.
+  2:{ exfalso. unfold Model.accept in A3. replace (pmark s2) with (Some i) in A3 by reflexivity. rewrite N.eqb_refl in A3. discriminate. }
+  assert (E3 : pmark s3 = None /\ completed s3 = i :: completed s /\ haves s3 = haves s /\ piece s3 i = piece s i /\ listed s3 i = false).
+  { unfold Model.accept in A3. replace (pmark s2) with (Some i) in A3 by reflexivity. rewrite N.eqb_refl in A3. inversion A3; subst s3. clear A3.
+    repeat split. unfold listed. cbn [attempts]. unfold s2, s1. cbn [attempts with_pmark with_hashing]. rewrite listed_filter. rewrite N.eqb_refl. apply andb_false_r. }
+  destruct E3 as (P3 & C3 & H3 & Pc3 & L3).
+  destruct (accept s3 (EHave i)) as [s4|] eqn:A4.
+  2:{ exfalso. unfold Model.accept in A4. rewrite P3, C3, H3, NHv in A4. unfold memN in A4. cbn [existsb] in A4. rewrite N.eqb_refl in A4. discriminate. }
+  exists s4. split.
+  - simpl. rewrite A1, A2, A3, A4. reflexivity.
+  - unfold Model.accept in A4. rewrite P3, C3, H3, NHv in A4. unfold memN in A4. cbn [existsb] in A4. rewrite N.eqb_refl in A4.
+    cbn [orb andb negb] in A4. inversion A4; subst s4; clear A4. cbn [completed haves piece store listed attempts].
+    repeat split; try (left; reflexivity); try (rewrite C3; left; reflexivity); auto.
 Qed.
 
 End Hash.
